@@ -87,6 +87,33 @@ def sources_sensors(m, rng, nd=4, ns=12):
     sens = models.sensors_on_sphere(rng, ns, m["info"].get("centre", (0, 0, 0)), m["info"]["outer_radius"] * 1.02)
     return [tuple(p) + tuple(q) for p, q in zip(pos, mom)], sens
 
+def observation_points(m, rng, per_domain=2, margin=0.03):
+    """points inside every conductive domain (skull / scalp layers included), farther than `margin` from every surface:
+    candidates are pushed off random triangles along the normal; the domain is decided with the winding-number oracle"""
+    ifs, doms = gd.resolve(m)
+    names = [n for n, _ in m["domains"]]
+    samples = []
+    for _, vs, ts in m["meshes"]:
+        for a, b, c in ts:
+            A, B, C = vs[a], vs[b], vs[c]
+            for wa, wb, wc in ((1, 0, 0), (0, 1, 0), (0, 0, 1), (.5, .5, 0), (0, .5, .5), (.5, 0, .5), (1 / 3., 1 / 3., 1 / 3.)):
+                samples.append(tuple(wa * A[k] + wb * B[k] + wc * C[k] for k in range(3)))
+    got = {}; tries = 0
+    want = [k for k, n in enumerate(names) if m["cond"][n] != 0.0]
+    while tries < 4000 and any(len(got.get(k, [])) < per_domain for k in want):
+        tries += 1
+        _, vs, ts = m["meshes"][rng.randrange(len(m["meshes"]))]
+        t = ts[rng.randrange(len(ts))]; n = models.tri_normal(vs, t); ln = math.sqrt(sum(x * x for x in n)) or 1.0
+        cen = tuple(sum(vs[a][k] for a in t) / 3.0 for k in range(3))
+        h = rng.choice([-1, 1]) * rng.uniform(0.04, 0.3)
+        p = tuple(cen[k] + h * n[k] / ln for k in range(3))
+        if min((p[0] - s_[0]) ** 2 + (p[1] - s_[1]) ** 2 + (p[2] - s_[2]) ** 2 for s_ in samples) < margin ** 2: continue
+        ins = [gd.inside_interface(m, ifc, p) for ifc in ifs]
+        hits = [k for k, d in enumerate(doms) if all(ins[i] == bool(s_) for s_, i in d)]
+        if len(hits) == 1 and hits[0] in want and len(got.get(hits[0], [])) < per_domain:
+            got.setdefault(hits[0], []).append(p)
+    return [p for k in want for p in got.get(k, [])]
+
 def variant(m, rng, kind):
     """(model, fmt, style, api?, cond_rng) for a re-description kind"""
     fmt, style, api = "tri", "1.1", False
@@ -154,21 +181,21 @@ def main(replay=None):
     calib = json.load(open(CALIB)) if os.path.exists(CALIB) else {}
     calibrate = os.environ.get("C06_CALIBRATE") == "1"
     runs = []      # dict(kind, base index, hline, model)
-    def add(cid, v, fmt, style, api, dips, sens, kind, base, cond_shuffle=False, old=False):
+    def add(cid, v, fmt, style, api, dips, sens, kind, base, cond_shuffle=False, old=False, obs=()):
         d = os.path.join(ck.workdir, "c%d" % cid); shutil.rmtree(d, ignore_errors=True); os.makedirs(d)
         if api: write_api(v, d)
         else:
             g = gd.write_geom(v, d, fmt, style, rng)
             if g is None: gd.write_geom(v, d, fmt, "1.1", rng)
             gd.write_cond(v, d, rng if cond_shuffle else None)
-        hline = core.fcase("c06", [2 if api else 1, cid, len(dips), len(sens), 1 if old else 0], [x for dd in dips for x in dd] + [x for s in sens for x in s])
-        runs.append(dict(kind=kind, base=base, hline=hline, model=v, fmt=fmt, style=style, api=api, dips=dips, sens=sens, cid=cid, old=old))
+        hline = core.fcase("c06", [2 if api else 1, cid, len(dips), len(sens), 1 if old else 0, len(obs)], [x for dd in dips for x in dd] + [x for s in sens for x in s] + [x for o_ in obs for x in o_])
+        runs.append(dict(kind=kind, base=base, hline=hline, model=v, fmt=fmt, style=style, api=api, dips=dips, sens=sens, cid=cid, old=old, obs=[tuple(o_) for o_ in obs]))
     if replay:
         R = json.load(open(replay))
         for k, rc in enumerate(R.get("cases", [])):
             m = rc["model"]; m["meshes"] = [(n, [tuple(v) for v in vs], [tuple(t) for t in ts]) for n, vs, ts in m["meshes"]]
             m["interfaces"] = [(n, [tuple(x) for x in ms]) for n, ms in m["interfaces"]]; m["domains"] = [(n, [tuple(x) for x in bs]) for n, bs in m["domains"]]
-            add(k, m, rc["fmt"], rc["style"], rc["api"], [tuple(x) for x in rc["dips"]], [tuple(x) for x in rc["sens"]], rc["kind"], 0 if k else None, old=rc.get("old", False))
+            add(k, m, rc["fmt"], rc["style"], rc["api"], [tuple(x) for x in rc["dips"]], [tuple(x) for x in rc["sens"]], rc["kind"], 0 if k else None, old=rc.get("old", False), obs=[tuple(x) for x in rc.get("obs", [])])
     else:
         nbase = 10 if quick else 40
         kinds = list(KINDS)
@@ -176,21 +203,22 @@ def main(replay=None):
             m = base_model(rng, quick)
             dips, sens = sources_sensors(m, rng)
             base_idx = len(runs)
-            add(len(runs), m, "tri", "1.1", False, dips, sens, "base", None)
+            obs = observation_points(m, rng)
+            add(len(runs), m, "tri", "1.1", False, dips, sens, "base", None, obs=obs)
             ks = kinds
             if calibrate: ks = kinds
             for kind in ks:
                 if kind == "old_ordering":
                     # the other enumeration of the unknowns offered by the library (asserted for nested geometries only)
-                    if m["info"].get("kind") == "nested": add(len(runs), m, "tri", "1.1", False, dips, sens, kind, base_idx, old=True)
+                    if m["info"].get("kind") == "nested": add(len(runs), m, "tri", "1.1", False, dips, sens, kind, base_idx, old=True, obs=obs)
                     continue
                 v, fmt, style, api = variant(m, rng, kind)
                 if kind == "format_mesh32":
                     # fair comparison: the reference is the float32-rounded model in full-precision text
-                    ref = len(runs); add(len(runs), round32(m), "tri", "1.1", False, dips, sens, "base32", None)
-                    add(len(runs), v, fmt, style, api, dips, sens, kind, ref)
+                    ref = len(runs); add(len(runs), round32(m), "tri", "1.1", False, dips, sens, "base32", None, obs=obs)
+                    add(len(runs), v, fmt, style, api, dips, sens, kind, ref, obs=obs)
                 else:
-                    add(len(runs), v, fmt, style, api, dips, sens, kind, base_idx, cond_shuffle=(kind == "cond_order"))
+                    add(len(runs), v, fmt, style, api, dips, sens, kind, base_idx, cond_shuffle=(kind == "cond_order"), obs=obs)
     if not replay and not calibrate:
         # known witness: non-conductive inclusion => singular head matrix => a vertex relabelling changes the gain
         wm = models.inclusions(1.0, [((0.4, 0, 0.1), 0.3, 0.0), ((-0.45, 0, 0), 0.25, 0.33)], 1.0, 1)
@@ -207,7 +235,7 @@ def main(replay=None):
         if r["base"] is None: continue
         bz, bf = outs[r["base"]]
         base = runs[r["base"]]
-        rep = dict(kind="metamorphic", cases=[dict(model=x["model"], fmt=x["fmt"], style=x["style"], api=x["api"], dips=x["dips"], sens=x["sens"], kind=x["kind"], old=x.get("old", False)) for x in (base, r)],
+        rep = dict(kind="metamorphic", cases=[dict(model=x["model"], fmt=x["fmt"], style=x["style"], api=x["api"], dips=x["dips"], sens=x["sens"], kind=x["kind"], old=x.get("old", False), obs=x.get("obs", [])) for x in (base, r)],
                    replay_cmd="./check C06 --replay <this file>")
         top = base["model"]["info"].get("topology", "?")
         if zi is None or bz is None or zi[0] != 0 or bz[0] != 0:
@@ -215,15 +243,28 @@ def main(replay=None):
             continue
         if zi[1:3] != bz[1:3] or len(fl) != len(bf):
             ck.violation("%s: shape (%s)" % (r["kind"], top), "gain shape differs", rep); continue
-        ne = zi[1] * zi[2]                      # EEG block, then MEG block
-        e = max(frob_rel(bf[:ne], fl[:ne]), frob_rel(bf[ne:], fl[ne:])); nontriv += 1
+        def blocks(z, f):
+            ne = z[1] * z[2]; nm_ = z[5] * z[2]             # EEG block, MEG block, internal-potential block
+            return [f[:ne], f[ne:ne + nm_], f[ne + nm_:]]
+        def differ3(f1, f2, z1, z2):
+            return [(frob_rel(a, b) if (a or b) else 0.0) for a, b in zip(blocks(z1, f1), blocks(z2, f2))]
+        def differ(f1, f2, z1, z2): return max(differ3(f1, f2, z1, z2))
+        BL = ("eeg", "meg", "ip")
+        def within(e3, cls_):
+            if cls_ in ("exact", "exact32"): return max(e3) <= EXACT_TOL
+            return all(x <= calib.get("asym_bound_" + b, calib.get("asym_bound", 3e-4)) for x, b in zip(e3, BL))
+        if zi[5:] != bz[5:]:
+            ck.violation("%s: shape (%s)" % (r["kind"], top), "MEG / internal-potential gain shapes differ: %s vs %s" % (bz[5:], zi[5:]), rep); continue
+        e3 = differ3(bf, fl, bz, zi); e = max(e3); nontriv += 1
         cls = KINDS[r["kind"]]
         key = "%s/%s" % (cls, r["kind"])
         worst[key] = max(worst.get(key, 0.0), e)
+        if cls == "asym":
+            for x, b in zip(e3, BL): worst["asymblock/" + b] = max(worst.get("asymblock/" + b, 0.0), x)
         if os.environ.get('C06_DEBUG'): print('DBG', top, r['kind'], '%.3g' % e, bz[1:], file=sys.stderr)
         if calibrate: continue
-        tol = EXACT_TOL if cls in ("exact", "exact32") else calib.get("asym_bound", 3e-4)
-        if not (e <= tol):
+        tol = EXACT_TOL if cls in ("exact", "exact32") else max(calib.get("asym_bound_" + b, 3e-4) for b in BL)
+        if not within(e3, cls):
             # delta-debug the re-description: one mesh, one transposition
             cands = shrink_candidates(base["model"], r["kind"], rng) if not replay else []
             if cands:
@@ -231,23 +272,27 @@ def main(replay=None):
                 for q, (v, what) in enumerate(cands):
                     cid = 50000 + q; d = os.path.join(ck.workdir, "c%d" % cid); shutil.rmtree(d, ignore_errors=True); os.makedirs(d)
                     gd.write_geom(v, d, "tri", "1.1", rng); gd.write_cond(v, d, None)
-                    lines.append(core.fcase("c06", [1, cid, len(base["dips"]), len(base["sens"])], [x for dd in base["dips"] for x in dd] + [x for s_ in base["sens"] for x in s_]))
+                    lines.append(core.fcase("c06", [1, cid, len(base["dips"]), len(base["sens"]), 0, len(base["obs"])], [x for dd in base["dips"] for x in dd] + [x for s_ in base["sens"] for x in s_] + [x for o_ in base["obs"] for x in o_]))
                 _, so, _ = core.run_harness(hb, lines, ck.workdir, timeout=900, tag="shrink")
                 for (v, what), l in zip(cands, so):
                     z2, f2 = core.fparse(l)
-                    if z2 and z2[0] == 0 and len(f2) == len(bf) and not (max(frob_rel(bf[:ne], f2[:ne]), frob_rel(bf[ne:], f2[ne:])) <= tol):
+                    if z2 and z2[0] == 0 and len(f2) == len(bf) and not within(differ3(bf, f2, bz, z2), cls):
                         rep["cases"][1] = dict(model=v, fmt="tri", style="1.1", api=False, dips=base["dips"], sens=base["sens"], kind=r["kind"])
-                        rep["shrunk_to"] = what + " (difference %.3g)" % max(frob_rel(bf[:ne], f2[:ne]), frob_rel(bf[ne:], f2[ne:]))
+                        rep["shrunk_to"] = what + " (difference %.3g)" % differ(bf, f2, bz, z2)
                         break
             ck.violation("%s changes the gain (%s)" % (r["kind"], top),
-                         "EEG/MEG gain of the %s re-description differs from the original by %.3g relative Frobenius (class %s, allowed %.3g) on a %s model" % (r["kind"], e, cls, tol, top), rep)
+                         "EEG / MEG / internal-potential gain of the %s re-description differs from the original by %.3g relative Frobenius (class %s, allowed %.3g; per block EEG %.2g, MEG %.2g, internal potential %.2g) on a %s model" % (r["kind"], e, cls, tol, e3[0], e3[1], e3[2], top), rep)
     if calibrate:
         am = max([v for k, v in worst.items() if k.startswith("asym/")] + [0.0]); e32 = max([v for k, v in worst.items() if k.startswith("exact32/")] + [0.0])
         os.makedirs(os.path.dirname(CALIB), exist_ok=True)
         old = json.load(open(CALIB)) if os.path.exists(CALIB) else {}
         am = max(am, old.get("asym_measured", 0.0)); seeds = sorted(set(old.get("seeds", []) + [ck.seed]))
-        json.dump(dict(note="MEASURED on the pinned tree (42-vertex meshes; max over the listed seeds, all kinds per base model), factor-3 margin; not a proof",
-                       asym_measured=am, asym_bound=3 * am, exact_classes_measured_max=max([v for k, v in worst.items() if not k.startswith("asym/")] + [old.get("exact_classes_measured_max", 0.0)]),
+        per = {}
+        for b in ("eeg", "meg", "ip"):
+            mb = max(worst.get("asymblock/" + b, 0.0), old.get("asym_measured_" + b, 0.0))
+            per["asym_measured_" + b] = mb; per["asym_bound_" + b] = 3 * mb
+        json.dump(dict(per, note="MEASURED on the pinned tree (42-vertex meshes; max over the listed seeds, all kinds per base model), factor-3 margin; not a proof",
+                       asym_measured=am, asym_bound=3 * am, exact_classes_measured_max=max([v for k, v in worst.items() if not k.startswith("asym")] + [old.get("exact_classes_measured_max", 0.0)]),
                        seeds=seeds), open(CALIB, "w"), indent=1)
     ck.cov.update(evaluations=len(runs), distinct_nontrivial=nontriv,
                   rule="generated head models (nested 1-3, split hemispheres, sibling and non-conductive inclusions; 42-vertex meshes) x re-description kinds; each evaluation = one full EEG gain; non-trivial = variant whose gain was compared with the base",
